@@ -36,6 +36,11 @@ type c18Lit struct {
 type c18In struct {
 	Kind   string          `json:"kind"` // "expr" | "registry"
 	Form   string          `json:"form"` // "dual" | "row"
+	// Ctx: where the SELECT that evaluates the expression sits — "" (top level), "union" (both sides of a UNION ALL),
+	// "cte" (body of a CTE read by the outer query), "derived" (a derived table). Cb: a completion callback and an
+	// error callback are installed. Neither may change what a built-in returns (options reach every sub-query).
+	Ctx string `json:"ctx,omitempty"`
+	Cb  bool   `json:"cb,omitempty"`
 	Consts *map[string]any `json:"consts"`
 	Vars   *map[string]any `json:"vars"`
 	Expr   c18Expr         `json:"expr"`
@@ -254,6 +259,10 @@ type c18Res struct {
 }
 
 func c18Run(form string, e c18Expr, consts, vars *map[string]any, padding bool) (res c18Res) {
+	return c18RunCtx(form, "", false, e, consts, vars, padding)
+}
+
+func c18RunCtx(form, ctx string, cb bool, e c18Expr, consts, vars *map[string]any, padding bool) (res c18Res) {
 	r := &c18Render{cols: map[string]any{}}
 	sqlExpr := r.expr(e)
 	doc := map[string]any{}
@@ -282,6 +291,14 @@ func c18Run(form string, e c18Expr, consts, vars *map[string]any, padding bool) 
 		}
 		sql = "SELECT " + sqlExpr + " AS v FROM dual"
 	}
+	switch ctx {
+	case "union":
+		sql = sql + " UNION ALL " + sql
+	case "cte":
+		sql = "WITH c AS (" + sql + ") SELECT v FROM c"
+	case "derived":
+		sql = "SELECT d.v AS v FROM (" + sql + ") AS d"
+	}
 	res.note = sql
 	defer func() {
 		if p := recover(); p != nil {
@@ -302,6 +319,9 @@ func c18Run(form string, e c18Expr, consts, vars *map[string]any, padding bool) 
 			m[k] = deepCopy(c18Norm(v))
 		}
 		opts = append(opts, genql.WithVars(m))
+	}
+	if cb {
+		opts = append(opts, genql.CompletedCallback(func() {}), genql.UnReportedErrors(func(error) {}))
 	}
 	q, err := genql.New(doc, sql, opts...)
 	if err != nil {
@@ -428,9 +448,15 @@ func (propC18) Observe(raw json.RawMessage) (Observed, error) {
 	if in.Form != "row" {
 		in.Form = "dual"
 	}
-	res := c18Run(in.Form, in.Expr, in.Consts, in.Vars, false)
+	res := c18RunCtx(in.Form, in.Ctx, in.Cb, in.Expr, in.Consts, in.Vars, false)
 	top := strings.ToLower(in.Expr.Fn)
 	tags := []string{"class:" + res.class, "form:" + in.Form}
+	if in.Ctx != "" {
+		tags = append(tags, "ctx:"+in.Ctx)
+	}
+	if in.Cb {
+		tags = append(tags, "callbacks-installed")
+	}
 	if in.Expr.Fn != "" {
 		tags = append(tags, "fn:"+top, fmt.Sprintf("nargs:%d", len(in.Expr.Args)))
 	}
@@ -638,8 +664,31 @@ func (g *c18Gen) add(e c18Expr, consts, vars *map[string]any, nontrivial bool, t
 	if g.r.Chance(35) && !c18HasAggr(e) {
 		form = "row"
 	}
-	g.out = append(g.out, Case{Input: c18In{Kind: "expr", Form: form, Consts: consts, Vars: vars, Expr: e},
-		Tags: tags, Nontrivial: nontrivial})
+	in := c18In{Kind: "expr", Form: form, Consts: consts, Vars: vars, Expr: e}
+	if c18ContextFree(e) && !c18HasAggr(e) {
+		if g.r.Chance(18) {
+			in.Ctx = Pick(g.r, []string{"union", "cte", "derived"})
+		}
+		in.Cb = g.r.Chance(30)
+	}
+	g.out = append(g.out, Case{Input: in, Tags: tags, Nontrivial: nontrivial})
+}
+
+// c18ContextFree: no call with an effect or an effect-only result (their evaluation count / column is context dependent)
+func c18ContextFree(e c18Expr) bool {
+	if e.Lit != nil {
+		return true
+	}
+	switch strings.ToLower(e.Fn) {
+	case "setvar", "getvar", "report", "report_when", "raise", "raise_when", "timestamp", "fuse", "async", "await":
+		return false
+	}
+	for _, a := range e.Args {
+		if !c18ContextFree(a) {
+			return false
+		}
+	}
+	return true
 }
 
 func c18HasAggr(e c18Expr) bool {
@@ -843,6 +892,15 @@ func (g *c18Gen) constants(rep int) {
 			g.add(c18F(c18MixCase(r, "constant"), g.lit(key)), &c, nil, true, "stream:constant")
 			if r.Chance(40) {
 				g.add(c18F(c18MixCase(r, "constant"), g.lit(key)), nil, nil, true, "stream:constant")
+			}
+		}
+		// options must reach every sub-query: CONSTANT / GETVAR-free expressions inside a UNION side, a CTE body and a
+		// derived table, with and without callbacks installed
+		for _, ctx := range []string{"union", "cte", "derived"} {
+			for _, cb := range []bool{false, true} {
+				c := cs
+				in := c18In{Kind: "expr", Form: Pick(r, []string{"dual", "row"}), Consts: &c, Expr: c18F(c18MixCase(r, "constant"), g.lit(Pick(r, keys[:8]))), Ctx: ctx, Cb: cb}
+				g.out = append(g.out, Case{Input: in, Tags: []string{"stream:constant", "options-in-subquery"}, Nontrivial: true})
 			}
 		}
 		empty := map[string]any{}
